@@ -136,6 +136,9 @@ func (p *Protocol) downloadBlockFromPeer(height int64, pid peer.ID) (*types.Bloc
 	if err != nil {
 		return nil, err
 	}
+	if block.GetHeight() != height {
+		return nil, fmt.Errorf("unexpected block height %d in response, requested %d", block.GetHeight(), height)
+	}
 	return &block, nil
 }
 
@@ -170,6 +173,9 @@ func (p *Protocol) downloadBlockFromPeerOld(height int64, pid peer.ID) (*types.B
 	blockData, ok := resp.Message.Items[0].Value.(*types.InvData_Block)
 	if !ok || blockData == nil || blockData.Block == nil {
 		return nil, fmt.Errorf("invalid block data in response")
+	}
+	if blockData.Block.GetHeight() != height {
+		return nil, fmt.Errorf("unexpected block height %d in response, requested %d", blockData.Block.GetHeight(), height)
 	}
 	return blockData.Block, nil
 }
